@@ -57,7 +57,7 @@ rvars == <<status, errs, handled, cancelled, w, msgs, att, last, sem, lockBusy, 
            retnil, failed, spd, wk, sk, exited, launched>>
 vars == <<gvars, phase, rvars>>
 
-WorkerStates == {"none", "waitsem", "waitlock", "locked", "run", "exited", "flushed", "sending", "recvd", "unlocked", "fin"}
+WorkerStates == {"none", "spawned", "waitsem", "gotsem", "waitlock", "locked", "run", "exited", "flushed", "sending", "recvd", "unlocked", "fin"}
 
 -----------------------------------------------------------------------------
 (* Graph helpers *)
@@ -194,7 +194,7 @@ SchedLaunch(v, kind) ==
   /\ status' = [status EXCEPT ![v] = "inprogress"]
   /\ CASE kind = "skip"    -> msgs' = [msgs EXCEPT ![v] = Append(@, "nil")] /\ w' = w
        [] kind = "errskip" -> msgs' = [msgs EXCEPT ![v] = Append(@, "skipped")] /\ w' = w
-       [] kind = "run"     -> msgs' = msgs /\ w' = [w EXCEPT ![v] = "waitsem"]
+       [] kind = "run"     -> msgs' = msgs /\ w' = [w EXCEPT ![v] = "spawned"]
   /\ wk' = IF kind = "run" THEN [wk EXCEPT ![v] = sk] ELSE wk
   /\ launched' = IF kind = "run" /\ handled THEN launched + 1 ELSE launched
   /\ UNCHANGED <<gvars, phase, errs, handled, cancelled, att, last, sem, lockBusy, result, buf, wlog,
@@ -202,9 +202,21 @@ SchedLaunch(v, kind) ==
 
 -----------------------------------------------------------------------------
 (* Workers *)
+\* the worker goroutine is about to wait for a semaphore slot / for the Task mutex (hooks `acquiring`, `locking`)
+Acquiring(v) ==
+  /\ phase = "run" /\ w[v] = "spawned"
+  /\ w' = [w EXCEPT ![v] = "waitsem"]
+  /\ UNCHANGED <<gvars, phase, status, errs, handled, cancelled, msgs, att, last, sem, lockBusy, result, buf, wlog,
+                 retnil, failed, spd, wk, sk, exited, launched>>
+Locking(v) ==
+  /\ phase = "run" /\ w[v] = "gotsem"
+  /\ w' = [w EXCEPT ![v] = "waitlock"]
+  /\ UNCHANGED <<gvars, phase, status, errs, handled, cancelled, msgs, att, last, sem, lockBusy, result, buf, wlog,
+                 retnil, failed, spd, wk, sk, exited, launched>>
+
 Acquire(v) ==
   /\ phase = "run" /\ w[v] = "waitsem" /\ sem < limit
-  /\ sem' = sem + 1 /\ w' = [w EXCEPT ![v] = "waitlock"]
+  /\ sem' = sem + 1 /\ w' = [w EXCEPT ![v] = "gotsem"]
   /\ UNCHANGED <<gvars, phase, status, errs, handled, cancelled, msgs, att, last, lockBusy, result, buf, wlog,
                  retnil, failed, spd, wk, sk, exited, launched>>
 
@@ -299,7 +311,7 @@ EnvUnlock(v) ==
 (* Properties (C13 - C16) *)
 
 Running == {v \in Tasks : w[v] = "run"}
-HoldsSlot == {v \in Tasks : w[v] \in {"waitlock", "locked", "run", "exited", "flushed", "sending", "recvd", "unlocked"}}
+HoldsSlot == {v \in Tasks : w[v] \in {"gotsem", "waitlock", "locked", "run", "exited", "flushed", "sending", "recvd", "unlocked"}}
 
 TypeOK ==
   /\ \A v \in Tasks : w[v] \in WorkerStates /\ status[v] \in {"pending", "inprogress", "skip", "done"}
@@ -332,7 +344,7 @@ NoLaunchAfterCancelObserved == launched = 0
 
 (* C15 *)
 ExecBound == Cardinality(Running) <= limit
-SerialOne == serial => Cardinality({v \in Tasks : w[v] \in {"waitsem", "waitlock", "locked", "run", "exited", "flushed"}}) <= 1
+SerialOne == serial => Cardinality({v \in Tasks : w[v] \in {"spawned", "waitsem", "gotsem", "waitlock", "locked", "run", "exited", "flushed"}}) <= 1
 SerialHB  == serial => \A v \in Running : \A k \in 1..Len(exited) : exited[k] \in wk[v]
 TaskMutex == \A v \in Tasks : w[v] \in {"locked", "run", "exited", "flushed", "sending", "recvd"} => ~lockBusy[v]
 BlocksWhole == \A k \in 1..Len(wlog) : wlog[k] # <<>> /\ \A a, b \in 1..Len(wlog[k]) : wlog[k][a][1] = wlog[k][b][1] /\ wlog[k][a][2] = wlog[k][b][2]
